@@ -95,7 +95,7 @@ AbsEDSOf(e) ==
     [key |-> EDSKey, ns |-> NS, name |-> EDSName, defaulted |-> e.defaulted, tmpl |-> e.tmpl, strat |-> Strat,
      ruPaused |-> e.ruPaused, frozen |-> e.frozen, cPaused |-> e.cPaused, cUnpaused |-> e.cUnpaused, cValid |-> e.cValid,
      oldDS |-> "", active |-> e.active, activeName |-> (IF e.active > 0 THEN RSName(e.active) ELSE ""),
-     hasCanary |-> e.hasCanary, canaryRS |-> e.canaryRS, cNodes |-> e.cNodes, state |-> e.state, reason |-> "",
+     hasCanary |-> e.hasCanary, canaryRS |-> e.canaryRS, cNodes |-> e.cNodes, state |-> e.state, reason |-> e.reason,
      desired |-> e.desired, current |-> e.current, ready |-> e.ready, available |-> e.available, upToDate |-> e.upToDate,
      ignored |-> 0, condPaused |-> e.condPaused, condFailed |-> e.condFailed]
 
@@ -133,7 +133,7 @@ Init ==
     /\ pd = [n \in NodeIds |-> <<>>]
     /\ rv = [i \in DOMAIN TmplSeq |-> NoRS]
     /\ ed = [defaulted |-> FALSE, tmpl |-> TmplSeq[1], ruPaused |-> FALSE, frozen |-> FALSE, cPaused |-> FALSE, cUnpaused |-> FALSE,
-             cValid |-> 0, active |-> 0, hasCanary |-> FALSE, canaryRS |-> 0, cNodes |-> <<>>, state |-> "", desired |-> 0,
+             cValid |-> 0, active |-> 0, hasCanary |-> FALSE, canaryRS |-> 0, cNodes |-> <<>>, state |-> "", reason |-> "", desired |-> 0,
              current |-> 0, ready |-> 0, available |-> 0, upToDate |-> 0, condPaused |-> NoCond, condFailed |-> NoCond]
     /\ bud = [env |-> EnvBudget, edit |-> EditBudget, ann |-> AnnBudget, fault |-> FaultBudget]
     /\ pend = <<>>
@@ -208,12 +208,13 @@ EDSReconcile ==
              cact   == Strat.canary /\ ~failed /\ cur # u.id
              base   == [ed EXCEPT !.current = SumRS(LAMBDA r : r.current), !.ready = SumRS(LAMBDA r : r.ready),
                                   !.available = SumRS(LAMBDA r : r.available), !.active = cur, !.desired = curR.desired,
-                                  !.upToDate = curR.current, !.state = NonCanaryState(d)]
+                                  !.upToDate = curR.current, !.state = NonCanaryState(d), !.reason = ""]
              withC  == IF ~Strat.canary THEN base
                        ELSE LET c1 == [base EXCEPT !.condFailed = UpdCond(@, failed, FALSE), !.condPaused = UpdCond(@, paused /\ ~failed, FALSE)]
                             IN IF failed THEN [c1 EXCEPT !.hasCanary = FALSE, !.canaryRS = 0, !.cNodes = <<>>, !.state = "Canary Failed", !.tmpl = curR.tmpl]
                                ELSE IF cact THEN [c1 EXCEPT !.hasCanary = TRUE, !.canaryRS = u.id, !.desired = @ + u.desired, !.upToDate = u.current,
-                                                           !.state = IF paused THEN "Canary Paused" ELSE "Canary"]
+                                                           !.state = IF paused THEN "Canary Paused" ELSE "Canary",
+                                                           !.reason = IF paused THEN "paused" ELSE ""]   \* (the condition's / annotation's reason, or Unknown: never empty)
                                ELSE [c1 EXCEPT !.hasCanary = FALSE, !.canaryRS = 0, !.cNodes = <<>>, !.cPaused = FALSE, !.cUnpaused = FALSE]
              nb     == Resolve(Strat.cReplicas, ed.desired)
              gcW    == [k \in DOMAIN SetSeq(gc) |-> Wr("delete", "ERS", SetSeq(gc)[k], "", TmplSeq[SetSeq(gc)[k]], 0, "")]
@@ -423,6 +424,15 @@ CmdUnpause ==
     /\ UNCHANGED <<nd, pd, rv>>
     /\ ev' = EnvEvent("CmdUnpause", AbsOf(nd, pd, rv, ed'))
 
+\* kubectl-eds canary fail: appends Canary-Failed = True ("Manually failed") to the status of the replica set that is the canary now
+CmdFail ==
+    /\ bud.ann > 0 /\ Strat.canary /\ ed.hasCanary /\ ed.canaryRS > 0 /\ rv[ed.canaryRS].exists
+    /\ ~rv[ed.canaryRS].conds["CanaryFailed"].true
+    /\ rv' = [rv EXCEPT ![ed.canaryRS].conds["CanaryFailed"] = [present |-> TRUE, true |-> TRUE, ltt |-> 0, lut |-> 0, reason |-> "Manually failed"]]
+    /\ bud' = [bud EXCEPT !.ann = @ - 1]
+    /\ UNCHANGED <<nd, pd, ed>>
+    /\ ev' = EnvEvent("CmdFail", AbsOf(nd, pd, rv', ed))
+
 -----------------------------------------------------------------------------
 Kubelet == \E n \in NodeIds : \E k \in 1..MaxPerNode : KReady(n, k) \/ KFinish(n, k)
 Disturb == \E n \in NodeIds : \/ \E k \in 1..MaxPerNode : \/ ("unready" \in EnvKinds /\ KUnready(n, k))
@@ -434,7 +444,7 @@ Disturb == \E n \in NodeIds : \/ \E k \in 1..MaxPerNode : \/ ("unready" \in EnvK
                               \/ ("narrow" \in EnvKinds /\ \E F \in SUBSET Tmpls : NodeSetFits(n, F))
 Narrow  == \E n \in NodeIds : \E F \in SUBSET Tmpls : NodeSetFits(n, F)
 User    == (\E t \in Tmpls : SetTemplate(t)) \/ Toggle("ruPaused") \/ Toggle("frozen")
-CanaryUser == Validate \/ CmdPause \/ CmdUnpause
+CanaryUser == Validate \/ CmdPause \/ CmdUnpause \/ CmdFail
 Sync    == EDSReconcile \/ \E i \in DOMAIN TmplSeq : ERSReconcile(i)
 
 -----------------------------------------------------------------------------
@@ -458,7 +468,7 @@ RollbackBegin ==
            ed2  == [ed EXCEPT !.current = SumRS(LAMBDA r : r.current), !.ready = SumRS(LAMBDA r : r.ready), !.available = SumRS(LAMBDA r : r.available),
                               !.active = cur, !.desired = curR.desired, !.upToDate = curR.current,
                               !.condFailed = UpdCond(@, TRUE, FALSE), !.condPaused = UpdCond(@, FALSE, FALSE),
-                              !.hasCanary = FALSE, !.canaryRS = 0, !.cNodes = <<>>, !.state = "Canary Failed"]
+                              !.hasCanary = FALSE, !.canaryRS = 0, !.cNodes = <<>>, !.state = "Canary Failed", !.reason = ""]
        IN /\ ed' = ed2
           /\ pend' = <<[tmpl |-> curR.tmpl, base |-> <<ed.tmpl, ed.ruPaused, ed.frozen, ed.cPaused, ed.cUnpaused, ed.cValid>>]>>
           /\ UNCHANGED <<nd, pd, rv, bud>>
